@@ -218,6 +218,7 @@ func runC14(r *rt.Run, tier string) {
 				badLo = m.HdrOff + t.Draw(60, "fault.off")
 			}
 			disk.FailRange(badLo, badLo+1+t.Draw(32, "fault.len"))
+			disk.RangeOnce = t.Bool(1, 3, "fault.rangeonce")
 		}
 		var o loadOutcome
 		if concurrent {
